@@ -399,7 +399,7 @@ class Expander:
                     direct = False
                 elif _simple(v):
                     direct = True
-                elif uses.get(p, 0) <= 1 and _effect_free(v) and not self._in_loop_use(body, p):
+                elif uses.get(p, 0) <= 1 and (_effect_free(v) or _pure_enough(v)) and not self._in_loop_use(body, p):
                     direct = True
             if direct:
                 mapping[p] = v
@@ -1659,6 +1659,17 @@ def _effect_free(e):
     return all(isinstance(x, _SIMPLE) for x in ast.walk(e))
 
 
+def _pure_enough(e):
+    """Like _effect_free, but len(<name or attribute path>) may occur: by convention __len__ only reports."""
+    for x in ast.walk(e):
+        if isinstance(x, ast.Call):
+            if not (isinstance(x.func, ast.Name) and x.func.id == "len" and len(x.args) == 1 and not x.keywords and dotted(x.args[0]) is not None):
+                return False
+        elif isinstance(x, (ast.Await, ast.Yield, ast.YieldFrom, ast.NamedExpr, ast.Lambda, ast.ListComp, ast.SetComp, ast.DictComp, ast.GeneratorExp)):
+            return False
+    return True
+
+
 def _path_to(root, target):
     """[(ancestor, field, index)] from root down to target (identity), or None."""
     if root is target:
@@ -2021,6 +2032,26 @@ class _FoldLiterals(ast.NodeTransformer):
         if d in ("bytes", "str") and not node.args and not node.keywords:
             self.count += 1
             return ast.copy_location(ast.Constant(value=b"" if d == "bytes" else ""), node)
+        if d is not None and d.startswith("operator.") and self.module.imports.get("operator") == "operator" and not node.keywords and \
+                not any(isinstance(a, ast.Starred) for a in node.args):
+            # operator.and_(a, b) -> a & b ...   (the operands are evaluated in the same order)
+            nm = d.split(".", 1)[1]
+            binops = {"and_": ast.BitAnd, "or_": ast.BitOr, "xor": ast.BitXor, "add": ast.Add, "sub": ast.Sub, "mul": ast.Mult, "floordiv": ast.FloorDiv,
+                      "truediv": ast.Div, "mod": ast.Mod, "lshift": ast.LShift, "rshift": ast.RShift, "pow": ast.Pow, "concat": ast.Add}
+            cmps = {"eq": ast.Eq, "ne": ast.NotEq, "lt": ast.Lt, "le": ast.LtE, "gt": ast.Gt, "ge": ast.GtE, "is_": ast.Is, "is_not": ast.IsNot}
+            unops = {"not_": ast.Not, "neg": ast.USub, "pos": ast.UAdd, "inv": ast.Invert, "invert": ast.Invert}
+            if nm in binops and len(node.args) == 2:
+                self.count += 1
+                return ast.copy_location(ast.BinOp(left=node.args[0], op=binops[nm](), right=node.args[1]), node)
+            if nm in cmps and len(node.args) == 2:
+                self.count += 1
+                return ast.copy_location(ast.Compare(left=node.args[0], ops=[cmps[nm]()], comparators=[node.args[1]]), node)
+            if nm in unops and len(node.args) == 1:
+                self.count += 1
+                return ast.copy_location(ast.UnaryOp(op=unops[nm](), operand=node.args[0]), node)
+            if nm == "getitem" and len(node.args) == 2:
+                self.count += 1
+                return ast.copy_location(ast.Subscript(value=node.args[0], slice=node.args[1], ctx=ast.Load()), node)
         if d == "reversed" and len(node.args) == 1 and not node.keywords and isinstance(node.args[0], ast.Call) and dotted(node.args[0].func) == "range" \
                 and not node.args[0].keywords and 1 <= len(node.args[0].args) <= 2 and all(_effect_free(a) for a in node.args[0].args):
             # reversed(range(n)) -> range(n - 1, -1, -1);  reversed(range(a, b)) -> range(b - 1, a - 1, -1)      (same integers in the same order)
